@@ -62,6 +62,8 @@ type Scenario struct {
 	Name  string
 	Batch int // store batch size
 	Cfg   WCfg
+	// Setup runs in free mode after Start has settled (e.g. letting virtual time pass)
+	Setup func(e *Env)
 	Build func(e *Env)
 	// Check is the per-execution oracle (free mode, after the run).
 	Check func(e *Env, x *Exec, viol func(clause, format string, a ...any))
@@ -111,6 +113,10 @@ func execute(t *testing.T, run *vk.Run, sc Scenario, prefix []int, logOn bool) (
 		defer w.Close()
 		e := &Env{W: w, S: s, Notes: map[string]any{}}
 		vk.Settle()
+		if sc.Setup != nil {
+			sc.Setup(e)
+			vk.Settle()
+		}
 		s.Activate()
 		sc.Build(e)
 		s.SetDone(func(noneEnabled bool) bool {
